@@ -154,6 +154,7 @@ class Prov:
         self._index()
         self._cache = {}
         self._stack = set()
+        self._loops = None
 
     def _index(self):
         fn = self.fn
@@ -174,6 +175,22 @@ class Prov:
                 kind = 'call' if not d['p'] else 'partial'
                 if not (d['p'] and d['p'][0] == 'deref'):
                     self.defs.setdefault(d['l'], []).append((b, -1, kind))
+
+    def loops(self):
+        """list of (header, blocks, locals fully defined inside) for every natural-loop-like SCC with a single header"""
+        if self._loops is None:
+            out = []
+            fn = self.fn
+            for (h, comp) in fn.natural_loops():
+                defd = set()
+                for l, ds in self.defs.items():
+                    if any(b in comp and k in ('full', 'call') for (b, i, k) in ds):
+                        defd.add(l)
+                out.append((h, comp, defd))
+            # inner loops first (smaller components)
+            out.sort(key=lambda x: len(x[1]))
+            self._loops = out
+        return self._loops
 
     # ---------------------------------------------------------- reaching definitions
     def reaching(self, local, block, idx):
@@ -201,7 +218,18 @@ class Prov:
             if b == 0:
                 res.append(None)
                 # fallthrough to preds too (loops back to bb0 are rare but possible)
-            for p in fn.pred(b):
+            preds = fn.pred(b)
+            if self.cut_loops:
+                # one-iteration semantics: at the header of a loop that contains the use, a local that is
+                # (re)defined inside that loop is the symbol `x@in`; loop-invariant locals are chased past the header
+                for (h, comp, defd) in self.loops():
+                    if h == b and block in comp:
+                        if local in defd:
+                            res.append('IN')
+                            return
+                        preds = [p for p in preds if p not in comp]
+                        break
+            for p in preds:
                 if p in seen:
                     continue
                 seen.add(p)
@@ -299,15 +327,10 @@ class Prov:
             return E('local', fn.local_name(l))
         rs = self.reaching(l, block, idx)
         alts = []
-        if self.cut_loops and len(rs) > 1:
-            # loop-carried: some reaching definition lies downstream of this use (comes around a back edge)
-            if block not in self._reach_cache:
-                self._reach_cache[block] = fn.reachable(block)
-            down = self._reach_cache[block]
-            for r in rs:
-                if r is not None and r[0] in down and (r[0] != block or (r[1] != -1 and r[1] >= idx) or r[1] == -1):
-                    return E('local', fn.local_name(l) + '@in', ty=fn.local_ty(l), c={'l': l, 'loopvar': True})
         for r in rs:
+            if r == 'IN':
+                alts.append(E('local', fn.local_name(l) + '@in', ty=fn.local_ty(l), c={'l': l, 'loopvar': True}))
+                continue
             if r is None:
                 if 1 <= l <= fn.arg_count:
                     alts.append(E('param', fn.local_name(l), ty=fn.local_ty(l)))
